@@ -442,7 +442,7 @@ pub const DEF: PropertyDef = PropertyDef {
            value, 14-digit value, foreign character) for single sources; metadata list shorter/longer than sources; tokens before/on/after \
            the entries, sourceless tokens, range tokens (a bytecode offset inside a range mapping resolves the scope at the advanced original column). Oracle: independent Metro reader + linear scan for every token, for bytecode offsets (every \
            line-0 token column +-1, 0, u32::MAX, random) through both entry points, None for non-zero lines; all answers repeated after \
-           to_writer+decode. Non-trivial = >= 2 sources with function maps of >= 3 entries on >= 2 lines and an omitted trailing field",
+           to_writer+decode. Range tokens (a bytecode offset inside a range resolves the scope at the advanced column); a bait source without function map queried with the optional minified-name / source-view arguments. Non-trivial = >= 2 sources with function maps of >= 3 entries on >= 2 lines and an omitted trailing field",
     assumptions: &[
         "function-map entries are sorted and distinct by (line, column) — the statement's 'well-formed'",
         "offset lookups that land on several tokens sharing a position accept the scope of any of them unless the hit is exact",
